@@ -13,7 +13,8 @@ RULE = ("C19: programs over the tokio-compatible mpsc (bounded/unbounded: send, 
         "no value lost before a None, capacity never exceeded, Full only when full, len+capacity=bound at rest, permits held never exceed permits existing (exclusion for locks), and every deadlock "
         "re-judged against reference semantics of the tokio contracts (channel buffer, permit counts, Notify by counting).  Every 6th program is wild (dead endpoints, nothing held, zero permits, capacity 0).")
 
-# directed cases: the findings first, then regressions of each primitive
+# directed cases: the witnesses of the findings first (C19-F1, F2, F5, F6 are repaired in /repo: regressions, expected to pass;
+# C19-F3, F4 still known), then regressions of each primitive
 CORPUS = [
     "tok none - 1 cB1:1 bs0.0.7;br0;bs0.0.8",
     "tok none - 1 cB2:1 bs0.0.1;bs0.0.2;br0;br0;ci0;ts0.0.3",
@@ -21,6 +22,8 @@ CORPUS = [
     "tok none - 1 cB1:1 ts0.0.1;tr0;ts0.0.2;ci0",
     "tok none - 1 s1 ta0.0",
     "tok none - 1 s1 ac0.0",
+    "tok none - 1 s1 sc0;ta0.0;ac0.0",
+    "tok none - 1 s2 ac0.0;ta0.0;si0;rl0;rl0;si0",
     "tok none - 1 n nf0;en0;no0;dn0;nf0;an1",
     "tok none - 1 n no0;na0;nf0;an0",
     "tok none - 1 n no0;nf0;an0",
